@@ -102,7 +102,7 @@ def body(chk):
         confirm_hook_retry(chk, o)
     getters.obligations(chk, 'C01')
     summ_event.handle_event_obligations(chk, 'C01')
-    fail_on_skipped.obligations(chk, 'C01', only_core=True)
+    fail_on_skipped.obligations(chk, 'C01')        # (the default predicate - `@allow.skipped` on scenario, rule or feature - included)
     # the verdict is computed from events: the real run_scenario attempt must say "retries left" on its failure events
     # exactly when another attempt follows (else a final failure is counted as retried and the run passes)
     from checks import attempt_driver
